@@ -433,11 +433,16 @@ spif_socket_accept(spif_socket_t self)
 
     if (newfd < 0) {
         libast_print_error("Unable to accept() connection on %d -- %s\n", self->fd, strerror(errno));
+        SPIF_DEALLOC(addr);
         return (spif_socket_t) NULL;
     }
 
     /* We got one.  Create and return a new socket object for the accepted connection. */
     tmp = spif_socket_dup(self);
+    if (tmp->fd >= 0) {
+        /* dup() gave the copy its own descriptor for the listener; we only want its settings. */
+        close(tmp->fd);
+    }
     tmp->fd = newfd;
     SPIF_SOCKET_FLAGS_CLEAR(tmp, (SPIF_SOCKET_FLAGS_LISTEN | SPIF_SOCKET_FLAGS_HAVE_INPUT | SPIF_SOCKET_FLAGS_CAN_OUTPUT));
     if (SPIF_SOCKET_FLAGS_IS_SET(self, SPIF_SOCKET_FLAGS_FAMILY_INET)) {
